@@ -1,8 +1,9 @@
-(* C10 correspondence: a case is a call history on a leaf forecaster (double / NaiveForecaster) with
+(* C10 correspondence: a case is a call history on a leaf forecaster (double / NaiveForecaster) or on
+   a composite of them (CComp, model in Comp.v over SkV.C09.Model) with
    what the REAL object showed after every call: returned value, cutoff, remembered data, stored
    horizon; the history ends at the first ValueError.  `check` reruns it in the model. *)
 From Coq Require Import ZArith QArith List Bool.
-Require Import SkV.Lib.Base SkV.C09.Model SkV.C09.Cases SkV.C10.Model.
+Require Import SkV.Lib.Base SkV.C09.Model SkV.C09.Cases SkV.C10.Model SkV.C10.Comp.
 Import ListNotations.
 Open Scope Z_scope.
 
@@ -29,12 +30,17 @@ Definition snap_close (a b : snap) : bool :=
       ob_close oa ob' && (ca =? cb) && ser_close ma mb && ofh_eqb fa fb
   end.
 
+(* CComp: a history on a composite of the C09 model (horizon given at fit; calls update, predict,
+   update_predict_single, update_predict), snapshots = what the call returned, the composite's OWN
+   cutoff, remembered data and horizon *)
 Inductive case :=
-  | CHist (l : cleaf) (y0 : series) (fh0 : option (list Z)) (ops : list op) (out : list snap).
+  | CHist (l : cleaf) (y0 : series) (fh0 : option (list Z)) (ops : list op) (out : list snap)
+  | CComp (f : cfc) (y0 : series) (fh0 : list Z) (ops : list op) (out : list snap).
 
 Definition check (c : case) : bool :=
   match c with
   | CHist l y0 fh0 ops out => list_close snap_close (c_run l y0 fh0 ops) out
+  | CComp f y0 fh0 ops out => list_close snap_close (kc_run f y0 fh0 ops) out
   end.
 
 Fixpoint mism (cs : list (Z * case)) : list Z :=
